@@ -205,6 +205,7 @@ static struct {
         long km_splits, km_reduces, km_nodes, km_split_overlap;
         unsigned tids_seen[64]; int n_tids;
         uint64_t run_id;
+        int *mark; int stamp;
 } R;
 
 static uint64_t run_counter = 0;
@@ -268,7 +269,7 @@ static int km_open = 0; /* splits currently running */
 
 static void free_run_state(void)
 {
-        free(R.began); free(R.ended); free(R.order);
+        free(R.began); free(R.ended); free(R.order); free(R.mark);
         for (int i = 0; i < R.n_snaps; i++) {
                 struct snap *s = &R.snaps[i];
                 for (int k = 0; k < s->nmem; k++) free(s->gaps[k]);
@@ -481,6 +482,27 @@ void kv_merge_end(struct msa *msa, struct aln_tasks *t, struct aln_mem *m, int t
                                 violation("C02", "dp-unfinished-at-merge-end", det);
                         }
                         d->fb = d->fe = d->bb = d->be = d->mb = d->me = 0;
+                }
+        }
+        /* structural invariant at node completion: the member list of c is the disjoint union of the member lists of its children */
+        {
+                int a = t->list[task_id]->a, b = t->list[task_id]->b;
+                int na = msa->nsip[a], nb = msa->nsip[b], nc = msa->nsip[c];
+                if (nc != na + nb) {
+                        snprintf(det, sizeof det, "node %d has %d members, its children %d and %d have %d + %d", c, nc, a, b, na, nb);
+                        violation("C10", "member-count", det);
+                }
+                if (!R.mark) R.mark = calloc((size_t)R.numseq + 1, sizeof(int));
+                R.stamp++;
+                for (int k = 0; k < na; k++) { int x = msa->sip[a][k]; if (x >= 0 && x < R.numseq) R.mark[x] = R.stamp; }
+                for (int k = 0; k < nb; k++) { int x = msa->sip[b][k]; if (x >= 0 && x < R.numseq) R.mark[x] = R.stamp; }
+                for (int k = 0; k < nc; k++) {
+                        int x = msa->sip[c][k];
+                        if (x < 0 || x >= R.numseq || R.mark[x] != R.stamp) {
+                                snprintf(det, sizeof det, "node %d lists member %d which is not a member of child %d or %d (or is listed twice)", c, x, a, b);
+                                violation("C10", "member-set", det);
+                        }
+                        R.mark[x] = -R.stamp; /* seen */
                 }
         }
         /* structural invariant at node completion: every member row has the group's length */
